@@ -111,3 +111,70 @@ def root_local(an, local, reborrows=False):
             continue
         return cur
     return cur
+
+
+def ascii_sub(e):
+    """Sub-string algebra over hex strings of statically known length.
+    e denotes `hex::encode(x)[lo..hi]` for an x of array type [u8; N]:
+    returns (the hex::encode call expression, lo, hi) with 0 <= lo <= hi <= 2N.
+    Forms: hex::encode::<[u8;N]>(x); s[a..b] / s[a..] / s[..b] / s[..] with
+    constant bounds or `s2.len() - c`; s.split_at(c).0 / .1.  The string is
+    ASCII, so every offset is a character boundary and none of these panics
+    when the result is defined."""
+    e = strip(e)
+    while e.k == "mutated":
+        e = strip(e.a[0])
+    if e.k == "call":
+        c = e.a[0]
+        if c.name == "encode" and c.fn == "hex::encode" and e.a[1] and c.targs:
+            t = c.targs[0]
+            while t.get("k") == "ref":
+                t = t["of"]
+            if t.get("k") == "array" and isinstance(t.get("n"), int):
+                return (e, 0, 2 * t["n"])
+            return None
+        if c.name == "index" and len(e.a[1]) == 2 and c.trait == "std::ops::Index":
+            base = ascii_sub(e.a[1][0])
+            r = range_of(e.a[1][1])
+            if base is None or r is None:
+                return None
+            n = base[2] - base[1]
+            lo = _ascii_off(r[0], 0)
+            hi = _ascii_off(r[1], n)
+            if lo is None or hi is None or not (0 <= lo <= hi <= n):
+                return None
+            return (base[0], base[1] + lo, base[1] + hi)
+        return None
+    if e.k == "field" and e.a[1] in ("0", "1"):
+        s = strip(e.a[0])
+        if s.k == "call" and s.a[0].name == "split_at" and len(s.a[1]) == 2 and s.a[0].krate in ("core", "alloc", "std"):
+            base = ascii_sub(s.a[1][0])
+            k = _ascii_off(("expr", s.a[1][1]), None)
+            if base is None or k is None or not (0 <= k <= base[2] - base[1]):
+                return None
+            return (base[0], base[1], base[1] + k) if e.a[1] == "0" else (base[0], base[1] + k, base[2])
+    return None
+
+
+def _ascii_off(x, default):
+    """a range bound: None -> default, int, or `len(s) - c` / `len(s)` / const expression"""
+    if x is None:
+        return default
+    if isinstance(x, int):
+        return x
+    if isinstance(x, tuple) and x[0] == "expr":
+        ex = strip(x[1])
+        if ex.k == "const" and isinstance(ex.a[0], int):
+            return ex.a[0]
+        if ex.k == "field" and ex.a[1] == "0" and ex.a[0].k == "binop":
+            ex = ex.a[0]
+        if ex.k == "call" and ex.a[0].name == "len" and ex.a[1]:
+            b = ascii_sub(ex.a[1][0])
+            return b[2] - b[1] if b is not None else None
+        if ex.k == "binop" and ex.a[0] in ("Sub", "SubWithOverflow", "Add", "AddWithOverflow"):
+            a = _ascii_off(("expr", ex.a[1]), None)
+            b = _ascii_off(("expr", ex.a[2]), None)
+            if a is None or b is None:
+                return None
+            return a - b if ex.a[0].startswith("Sub") else a + b
+    return None
